@@ -498,7 +498,7 @@ class Exec(Engine):
         out = []
         adj = self._zip_adjacent(stmt.iter, st)
         if adj is not None:
-            for s, xs in self.ev(ast.Name(id=adj, ctx=ast.Load()), st):
+            for s, xs in self.ev(ast.copy_location(ast.Name(id=adj, ctx=ast.Load()), stmt.iter), st):
                 if xs.t[0] == "seq":
                     out += self.for_over_adjacent(stmt, s, xs, adj)
                 else:
